@@ -935,6 +935,8 @@ impl Ctx {
                             return self.bad(t0);
                         }
                     };
+                    self.shared.lock().unwrap().bind(&nh, gid, stream);
+                    let slot = &mut self.slots[hidx];
                     slot.h = Some(nh);
                     t.into()
                 }
